@@ -85,6 +85,27 @@ NOTES = {
  "C18r4-bar-rounded-3-decimals": ("bar conversion rounded to 3 decimals", "pressure fields with 0.1 Pa resolution (130314/130315)", ""),
  "C19r4-finally-releases-foreign-lock": ("send lock released in `finally` whenever it is locked", "sender suspended in drain(), then an unencodable send, then a third sender", "MISSED by the first C19 (bad messages were only sent alone): an unencodable message before / between / after two good ones under every back-pressure pattern added"),
  "C20r4-return-on-decode-error": ("Waveshare client returns before cutting the packet when the decoder raises", "a well-framed packet the decoder rejects: it is retried forever and the buffer grows", ""),
+ # round 5
+ "C01r5-time-86400-guard": ("decode_time guard `> 86400` instead of `>= 86400`", "a TIME field of 86400.0-86400.9999 s (inside the database range 0..86401)", ""),
+ "C02r5-one-bit-sentinel": ("1-bit fields no longer treat their top code as absent on decode (encode still does)", "a 1-bit NUMBER field with the bit set (129556 cna)", ""),
+ "C03r5-counter-never-wraps": ("`self.sequence_counter += 1 % 8`", "the 9th fast-packet message of one encoder", ""),
+ "C04r5-restart-only-on-greater-counter": ("a first frame restarts the record only if its counter is greater than the stored one", "a message that lost frames followed by one with a smaller counter (wrap 7 -> 0)", ""),
+ "C05r5-priority-modulo-7": ("`priority % 0x7` in the encoder's identifier", "priority 7", ""),
+ "C06r5-pdu1-mask-drops-data-page": ("`pgn_id_raw & 0xFF00` for PDU1 identifiers", "data-page-1 addressed PGNs (126208, 126464, 126720) through a frame-level format", ""),
+ "C07r5-reassembly-key-without-destination": ("reassembly key without the destination", "one source interleaving two fast-packet messages of an addressed PGN to two destinations", "MISSED by the first C07 (one message at a time): every fast-packet definition is now also sent as two interleaved streams (two sources; two destinations) through the four frame-level formats (C04 caught it)"),
+ "C08r5-variant-cache-24-bits": ("per-decoder cache of the chosen definition keyed on PGN + first 3 payload bytes", "two payloads of one PGN that agree in the first 3 bytes and differ in a deeper match field", ""),
+ "C09r5-encode-func-cached-per-pgn": ("encode function cached per PGN on the encoder (as C02 round 2, found independently)", "two definitions of one PGN that share field ids, on one encoder", "MISSED by the first C09 (definitions of one PGN were spread over different workers / encoders): definitions sharing a PGN now stay together and are exercised again forward and backward on one encoder (C02 caught it)"),
+ "C10r5-claim-filter-per-list": ("'claim is filtered' computed per include list", "a mixed number/id include list that names the address claim in one form only", ""),
+ "C11r5-window-uses-message-timestamp": ("discovery window measured against the message's time stamp", "Actisense lines from a gateway that has been up for more than 10 minutes (or a log dated in the future)", "MISSED by the first C11 (EByte entry point only): the data events now also arrive as Actisense lines with a two-day uptime stamp and as plain lines dated 2099"),
+ "C12r5-buffer-created-in-constructor": ("Waveshare reassembly buffer created in the constructor, no longer reset per connection", "a link that drops in the middle of a packet, then a clean stream on the new connection", "MISSED by the first C12 (single connection per session): a connection dropped after every prefix of a packet followed by a clean stream on the next connection, for all four clients (C13 caught it)"),
+ "C13r5-connected-reported-after-receive-start": ("CONNECTED reported after the receive task was started, still under the connect lock", "a status callback that suspends + a fault during it", ""),
+ "C14r5-state-stored-after-callback": ("state stored after the status callback returns", "close() landing while a slow status callback is running", ""),
+ "C15r5-from-json-destination-or-255": ("`data.get('destination') or 255` in from_json", "a message addressed to destination 0", "MISSED by the first C15 (one addressing for every case): priority / source / destination now vary with the case over the extreme legal values, and the EByte packets of original and parsed message are compared too"),
+ "C16r5-isoname-cache-low-32-bits": ("process-wide cache of parsed NAMEs keyed on the low 32 bits", "two claims that differ only in instance / function / class, on any decoders of the process", "MISSED by the first C16 (no claims in its alphabet, and a same-process 'fresh decoder' baseline cannot see a process-wide cache): a two-decoder search over 8 NAMEs differing in single parts, judged against the database decode of the NAME (C11 caught it)"),
+ "C17r5-key-join-without-separator": ("key values joined without a separator", "two or more key fields whose digits can be split differently: (1, 12) and (11, 2)", "MISSED by the first C17 (key fields varied one at a time): every pair of key fields over a 22 x 22 grid of small raws"),
+ "C18r5-units-not-applied-to-reassembled": ("unit conversion moved to a place the fast-packet reassembly path does not reach", "a fast-packet message arriving frame by frame on a decoder with preferences", "MISSED by the first C18 (pre-assembled plain lines only): every definition with a convertible field through six entry points (frame by frame for fast-packet messages)"),
+ "C19r5-assert-writer-before-encode": ("`assert self.writer` moved before the encode call", "an unsendable message on a client that never connected: it starts connecting", "MISSED by the first C19 (bad messages only in sessions that connect anyway): unsendable messages on a client on which connect() was never called"),
+ "C20r5-buffer-reset-only-once": ("Waveshare buffer reset only on the first connection (same effect as C12 round 5, found independently)", "link dropped in mid-packet, reconnect, clean stream; a crafted left-over even yields a packet that was never sent", "MISSED by the first C20 (single connection): part (c) drops the connection after every prefix of a packet (also one crafted to pass the checksum when glued to the next stream) and requires the clean stream of the next connection to arrive exactly"),
 }
 rows = []
 for d in sorted(glob.glob(os.path.join(V, "seeded", "*"))):
